@@ -6,7 +6,7 @@ import ast
 from sa import flow
 from sa.model import AnalysisError, dotted, names_in, unparse
 from sa.rules import LEVEL_TEXT, rule
-from sa.rules.util import is_self_attr, iter_body_nodes, own_methods, qual
+from sa.rules.util import is_self_attr, iter_body_nodes, locals_defined_by, one_local, own_methods, pfind, pmatch, qual
 
 LEVEL_TEXT["C03"] = (
     "Decides structural necessary conditions of C03: which comparison operators may be handed to the file reader "
@@ -94,7 +94,12 @@ def r03a(ctx):
             ctx.bad(cid, rp.module.loc(p.stmt), f"gate `{unparse(v)}` lacks " + ("the generic pushdown legality test" if not has_super else "the `extract_pq_filters(...)._filters is not None` conjunct"))
 
     # leaf guards inside extract_pq_filters
-    pts = [p for p in flow.walk(ex) if isinstance(p.stmt, ast.Assign) and any(isinstance(t, ast.Name) and t.id == "_filters" for t in p.stmt.targets)]
+    # the result variable: the local handed to the returned wrapper (`return _DNF(<local>)`)
+    res_names = {r.value.args[0].id for r in ast.walk(ex) if isinstance(r, ast.Return) and isinstance(r.value, ast.Call) and len(r.value.args) == 1 and isinstance(r.value.args[0], ast.Name)}
+    if len(res_names) != 1:
+        raise AnalysisError("anchor changed: _DNF.extract_pq_filters returns _DNF(<one local>)")
+    res_name = next(iter(res_names))
+    pts = [p for p in flow.walk(ex) if isinstance(p.stmt, ast.Assign) and any(isinstance(t, ast.Name) and t.id == res_name for t in p.stmt.targets)]
     leaf_sites = [p for p in pts if isinstance(p.stmt.value, ast.Tuple) and len(p.stmt.value.elts) == 3]
     comb_sites = [p for p in pts if p not in leaf_sites and not (isinstance(p.stmt.value, ast.Constant) and p.stmt.value.value is None)]
     ctx.floor("leaf translation sites", len(leaf_sites), 1)
@@ -209,14 +214,15 @@ def r03b(ctx):
     ctx.floor("join-side how tables", found, 2)
     # predicate with columns from both / no side: must return False when columns non-empty and on neither side
     rets = flow.returns(fn)
+    pc = one_local(fn, "self._predicate_columns(V__)", "predicate columns of Merge._filter_passthrough_available")
     ok_mixed = any(
-        isinstance(p.stmt.value, ast.Constant) and p.stmt.value.value is False and any("len(predicate_columns) > 0" in unparse(t) and pol for t, pol in flow.facts(p))
+        isinstance(p.stmt.value, ast.Constant) and p.stmt.value.value is False and any(f"len({pc}) > 0" in unparse(t) and pol for t, pol in flow.facts(p))
         for p in rets
     )
     (ctx.ok if ok_mixed else ctx.unclassified)("_merge.Merge._filter_passthrough_available:mixed-sides", merge.module.loc(fn), "predicate spanning both inputs is refused" if ok_mixed else "refusal of mixed-side predicates not recognised")
     # predicate_columns None => refuse
     ok_none = any(
-        isinstance(p.stmt.value, ast.Constant) and p.stmt.value.value is False and any(unparse(t) == "predicate_columns is None" and pol for t, pol in flow.facts(p))
+        isinstance(p.stmt.value, ast.Constant) and p.stmt.value.value is False and any(unparse(t) == f"{pc} is None" and pol for t, pol in flow.facts(p))
         for p in rets
     )
     (ctx.ok if ok_none else ctx.bad)("_merge.Merge._filter_passthrough_available:unsupported-predicate", merge.module.loc(fn), "unsupported predicate shapes are refused" if ok_none else "a predicate whose columns cannot be determined (None) is no longer refused")
@@ -329,27 +335,45 @@ def r03d(ctx):
     # internals of the legality test
     mod, fn = model.func("_expr", "is_filter_pushdown_available")
     rets = flow.returns(fn)
+    a0 = fn.args.args[0].arg  # the expression whose dependents are inspected
+    dep_param = fn.args.args[2].arg
+    # locals are identified by what they hold: the live dependents of expr, and the Filter dependents among them
+    parents = None
+    for n in ast.walk(fn):
+        if isinstance(n, ast.Assign) and len(n.targets) == 1 and isinstance(n.targets[0], ast.Name) and isinstance(n.value, (ast.ListComp, ast.SetComp)):
+            g = n.value.generators[0]
+            if unparse(g.iter) == f"{dep_param}[{a0}._name]" and pmatch("V_x()", n.value.elt) is not None:
+                parents = n.targets[0].id
+    if parents is None:
+        raise AnalysisError("anchor vanished: is_filter_pushdown_available collects the live dependents of expr")
+    filters = None
+    for n in ast.walk(fn):
+        if isinstance(n, ast.Assign) and len(n.targets) == 1 and isinstance(n.targets[0], ast.Name) and isinstance(n.value, (ast.ListComp, ast.SetComp)):
+            g = n.value.generators[0]
+            if unparse(g.iter) == parents and len(g.ifs) == 1 and pmatch("isinstance(V_e, Filter)", g.ifs[0]) is not None:
+                filters = n.targets[0].id
+    if filters is None:
+        ctx.bad("_expr.is_filter_pushdown_available:filters", mod.loc(fn), "the Filter dependents of the expression are no longer collected (a comprehension over the live dependents with `isinstance(e, Filter)`)")
+    else:
+        ctx.ok("_expr.is_filter_pushdown_available:filters", mod.loc(fn), f"`{filters}` = Filter dependents of expr")
+    one = f"len({filters}) != 1"
     first = None
     for p in rets:
-        if isinstance(p.stmt.value, ast.Constant) and p.stmt.value.value is False and any(pol and "len(filters) != 1" == unparse(t) for t, pol in flow.facts(p)):
+        if isinstance(p.stmt.value, ast.Constant) and p.stmt.value.value is False and any(pol and one == unparse(t) for t, pol in flow.facts(p)):
             first = p
     if first is None:
         ctx.bad("_expr.is_filter_pushdown_available:one-filter", mod.loc(fn), "the refusal `if len(filters) != 1: return False` is gone: with several Filter consumers pushing one of them filters the data of the others")
     else:
-        late = [p for p in rets if p is not first and not any((not pol) and unparse(t) == "len(filters) != 1" for t, pol in flow.facts(p))]
+        late = [p for p in rets if p is not first and not any((not pol) and unparse(t) == one for t, pol in flow.facts(p))]
         if late:
             ctx.bad("_expr.is_filter_pushdown_available:one-filter", mod.loc(late[0].stmt), "a return is reachable before/without the 'exactly one Filter dependent' refusal")
         else:
             ctx.ok("_expr.is_filter_pushdown_available:one-filter", mod.loc(first.stmt), "dominates all other returns")
-    # filters must be collected from the dependents of expr, by isinstance(e, Filter)
-    fdef = [n for n in ast.walk(fn) if isinstance(n, ast.Assign) and any(isinstance(t, ast.Name) and t.id == "filters" for t in n.targets)]
-    good = fdef and all("isinstance(e, Filter)" in unparse(a.value) for a in fdef)
-    (ctx.ok if good else ctx.bad)("_expr.is_filter_pushdown_available:filters", mod.loc(fn), "filters = Filter dependents of expr" if good else "`filters` is no longer the set of Filter dependents")
     # single-parent shortcut must test the number of parents == 1
     short = [p for p in rets if isinstance(p.stmt.value, ast.Constant) and p.stmt.value.value is True]
     for i, p in enumerate(short):
         fs = [unparse(t) for t, pol in flow.facts(p) if pol]
-        good = "len(parents) == 1" in fs
+        good = f"len({parents}) == 1" in fs
         (ctx.ok if good else ctx.bad)(f"_expr.is_filter_pushdown_available:return-True{i}", mod.loc(p.stmt), "only when the filter is the single dependent" if good else "returns True without `len(parents) == 1`")
 
     mod2, fn2 = model.func("_expr", "_check_dependents_are_predicates")
@@ -359,7 +383,9 @@ def r03d(ctx):
         raise AnalysisError("anchor changed: _check_dependents_are_predicates has no final return")
     for p in final:
         terms = [unparse(t) for t, pol in flow.conj_terms(p.stmt.value, True) if pol]
-        subs = [t for t in terms if ".issubset(allowed_expressions)" in t]
+        # the allowed set: the local that starts as {parent._name}
+        allowed = one_local(fn2, "{V_p._name}", "allowed-expressions set of _check_dependents_are_predicates")
+        subs = [t for t in terms if f".issubset({allowed})" in t]
         recv = {t.split(".issubset")[0] for t in subs}
         good = len(recv) >= 2 and params[1] in recv
         (ctx.ok if good else ctx.bad)(
@@ -456,7 +482,7 @@ def r03e(ctx):
     # SetIndex: index predicates must be refused (the index changes)
     si = model.cls("SetIndex")
     fn = model.method(si, "_filter_passthrough_available", own=True).node
-    good = any("isinstance(x, Index)" in unparse(r.value) and isinstance(r.value, ast.UnaryOp) for r in ast.walk(fn) if isinstance(r, ast.Return) and r.value is not None)
+    good = any(isinstance(r.value, ast.UnaryOp) and isinstance(r.value.op, ast.Not) and pfind("isinstance(V_x, Index)", r.value) for r in ast.walk(fn) if isinstance(r, ast.Return) and r.value is not None)
     (ctx.ok if good else ctx.bad)("_shuffle.SetIndex._filter_passthrough_available:index-predicate", si.module.loc(fn), "predicates on the index are refused" if good else "a predicate that reads the index is moved below set_index, where the index is a different one")
 
 
